@@ -157,6 +157,18 @@ def r15_2(ctx):
             out.bad(fn.qname, "clean() does not return the same curve", where=fn.where())
         else:
             out.ok(fn.qname, "two-pass chain a,b,c,d -> ab,cd; junction objects kept; returns self", where=fn.where())
+        # three consecutive pieces of one original segment: the freshly united segment must be tried against its
+        # new neighbour again
+        table3 = {("a", "b"): "ab", ("b", "c"): "bc", ("ab", "c"): "abc", ("a", "bc"): "abc"}
+        segs = [SegU("a", pa, pb, table3), SegU("b", pb, pc, table3), SegU("c", pc, pd, table3), SegU("d", pd, pa, table3)]
+        S3 = Obj("J", segments=tuple(segs))
+        Runner(ctx, set(), None).call_fn(fn, [S3])
+        names = [s.name for s in S3.__dict__["segments"]]
+        if sorted(names) != ["abc", "d"]:
+            out.bad(fn.qname, "clean() is not idempotent: a freshly united segment is not tried against its next neighbour",
+                    where=fn.where(), detail=f"three consecutive unitable pieces a,b,c (+ d) end as {names}, required ['abc', 'd']")
+        else:
+            out.ok(fn.qname, "three consecutive pieces a,b,c -> abc in one call", where=fn.where())
         # wrap-around pair
         table2 = {("d", "a"): "da"}
         segs = [SegU("a", pa, pb, table2), SegU("b", pb, pc, table2), SegU("d", pc, pa, table2)]
